@@ -93,3 +93,80 @@ package flow
 //@     invariant[done] forall k Int :: 0 <= k && k < #i && independent(tcs[k]) ==> added(gAdded, tcs[k].boundStat.writeOnlyMetric, base.MetricEventPass) == added(old(gAdded), tcs[k].boundStat.writeOnlyMetric, base.MetricEventPass) + b
 //@     invariant[todo] forall k Int :: #i <= k && k < len(tcs) && independent(tcs[k]) ==> added(gAdded, tcs[k].boundStat.writeOnlyMetric, base.MetricEventPass) == added(old(gAdded), tcs[k].boundStat.writeOnlyMetric, base.MetricEventPass)
 //@     invariant[others] forall p Int :: forall e Int :: (forall k Int :: 0 <= k && k < len(tcs) && independent(tcs[k]) ==> !(p == dynptr(tcs[k].boundStat.writeOnlyMetric) && e == base.MetricEventPass)) ==> sel(sel(gAdded, p), e) == sel(sel(old(gAdded), p), e)
+
+// ---- C10: throttling checker, sequential clause set (one caller at a time)
+//@ spec func waiting(r) = r != nil && r.status == base.ResultStatusShouldWait
+//@ func (c *ThrottlingChecker) DoCheck(resStat, batchCount, threshold) r
+//@   props C10
+//@   requires c != nil && c.statIntervalNs > 0 && c.statIntervalNs <= 4294967295000000 && c.maxQueueingTimeNs >= 0 && c.maxQueueingTimeNs <= 4294967295000000
+//@   requires c.lastPassedTime >= 0 && c.lastPassedTime < 4611686018427387904
+//@   let last0 = c.lastPassedTime
+//@   let maxQ = c.maxQueueingTimeNs
+//@   let I = ceil(R(batchCount) / threshold * R(c.statIntervalNs))
+//@   let ok = batchCount > 0 && threshold > 0.0 && R(batchCount) <= threshold
+//@   ensures[zero-batch] batchCount == 0 ==> r == nil && c.lastPassedTime == last0
+//@   ensures[bad-threshold] batchCount > 0 && (threshold <= 0.0 || R(batchCount) > threshold) ==> blocked(r) && c.lastPassedTime == last0
+//@   ensures[reject-iff] ok ==> (blocked(r) <==> last0 + I - clock_ns > maxQ)
+//@   ensures[reject-frame] blocked(r) ==> c.lastPassedTime == last0
+//@   ensures[spacing] ok && !blocked(r) ==> (last0 + I <= clock_ns && c.lastPassedTime == clock_ns) || (last0 + I > clock_ns && c.lastPassedTime == last0 + I)
+//@   ensures[no-bank] ok && !blocked(r) ==> c.lastPassedTime >= clock_ns
+//@   ensures[wait] ok && !blocked(r) ==> (r == nil && c.lastPassedTime == clock_ns) || (waiting(r) && clock_ns + r.nanosToWait == max(c.lastPassedTime, clock_ns) && r.nanosToWait <= maxQ && r.nanosToWait >= 0)
+//@   modifies c.lastPassedTime
+
+// ---- C11: adaptive thresholds
+// memory-adaptive threshold as a function of the memory reading (the property's piecewise-linear envelope)
+//@ spec func adaptive(low, high, mlo, mhi, mem) = mem <= mlo ? R(low) : (mem >= mhi ? R(high) : R(high - low) / R(mhi - mlo) * R(mem - mlo) + R(low))
+//@ spec func validAdaptive(m) = m.lowMemUsageThreshold > 0 && m.highMemUsageThreshold > 0 && m.highMemUsageThreshold < m.lowMemUsageThreshold && m.memLowWaterMark > 0 && m.memHighWaterMark > m.memLowWaterMark
+
+//@ func (m *MemoryAdaptiveTrafficShapingCalculator) CalculateAllowedTokens(batchCount, flag) r
+//@   props C11
+//@   requires m != nil && validAdaptive(m)
+//@   let mem = system_metric.CurrentMemoryUsage()
+//@   ensures[not-retrieved] mem == system_metric.NotRetrievedMemoryValue ==> r == R(m.lowMemUsageThreshold)
+//@   ensures[envelope] mem != system_metric.NotRetrievedMemoryValue ==> r == adaptive(m.lowMemUsageThreshold, m.highMemUsageThreshold, m.memLowWaterMark, m.memHighWaterMark, mem)
+//@   ensures[low-mark] mem != system_metric.NotRetrievedMemoryValue && mem <= m.memLowWaterMark ==> r == R(m.lowMemUsageThreshold)
+//@   ensures[high-mark] mem >= m.memHighWaterMark ==> r == R(m.highMemUsageThreshold)
+//@   ensures[between] R(m.highMemUsageThreshold) <= r && r <= R(m.lowMemUsageThreshold)
+//@   modifies nothing
+
+//@ lemma adaptive-monotone {C11}: forall low Int :: forall high Int :: forall mlo Int :: forall mhi Int :: forall m1 Int :: forall m2 Int :: 0 < high && high < low && 0 < mlo && mlo < mhi && m1 <= m2 ==> adaptive(low, high, mlo, mhi, m1) >= adaptive(low, high, mlo, mhi, m2)
+
+//@ func NewMemoryAdaptiveTrafficShapingCalculator(owner, r) c
+//@   props C11
+//@   requires r != nil
+//@   ensures[copies] c != nil && fresh(c) && c.lowMemUsageThreshold == r.LowMemUsageThreshold && c.highMemUsageThreshold == r.HighMemUsageThreshold && c.memLowWaterMark == r.MemLowWaterMarkBytes && c.memHighWaterMark == r.MemHighWaterMarkBytes && c.owner == owner
+//@   modifies nothing
+
+// warm-up: representation invariant established by the constructor for rules accepted by IsValidRule
+//@ spec func wuInv(c) = c.threshold > 0.0 && c.slope >= 0.0 && c.warningToken <= c.maxToken && c.maxToken < 4611686018427387904 && c.coldFactor >= 2
+
+//@ spec func wuSlope(c) = c.slope == R(c.coldFactor - 1) / c.threshold / R(c.maxToken - c.warningToken)
+//@ func (c *WarmUpTrafficShapingCalculator) CalculateAllowedTokens(batchCount, flag) r
+//@   props C11
+//@   requires c != nil && c.owner != nil && wuInv(c) && c.owner.boundStat.readOnlyMetric != nil
+//@   requires 0 <= c.storedTokens && c.storedTokens <= c.maxToken
+//@   ensures[bounds] 0.0 < r && r <= c.threshold
+//@   ensures[tokens] 0 <= c.storedTokens && c.storedTokens <= c.maxToken
+//@   ensures[above-warning] c.storedTokens >= c.warningToken ==> r == 1.0 / (R(c.storedTokens - c.warningToken) * c.slope + 1.0 / c.threshold)
+//@   ensures[below-warning] c.storedTokens < c.warningToken ==> r == c.threshold
+//@   modifies c.storedTokens, c.lastFilledTime
+
+// cold start: a full bucket yields threshold/coldFactor when the slope is the one the constructor computes
+//@ lemma warmup-cold-start {C11}: forall thr Real :: forall cf Int :: forall mx Int :: forall wn Int :: thr > 0.0 && cf >= 2 && mx > wn ==> 1.0 / (R(mx - wn) * (R(cf - 1) / thr / R(mx - wn)) + 1.0 / thr) == thr / R(cf)
+
+//@ func NewWarmUpTrafficShapingCalculator(owner, rule) r
+//@   props C11
+//@   requires rule != nil && rule.Threshold >= 0.0 && rule.WarmUpPeriodSec > 0 && rule.WarmUpColdFactor != 1
+//@   requires rule.Threshold <= 1000000.0
+//@   let cf = rule.WarmUpColdFactor <= 1 ? config.DefaultWarmUpColdFactor : rule.WarmUpColdFactor
+//@   case regular: rule.Threshold > 0.0 && cf < 4294967295 && 2.0 * R(rule.WarmUpPeriodSec) * rule.Threshold >= R(1 + cf)
+//@   case degenerate: !(rule.Threshold > 0.0 && cf < 4294967295 && 2.0 * R(rule.WarmUpPeriodSec) * rule.Threshold >= R(1 + cf))
+//@   witness threshold = rule.Threshold
+//@   witness period = rule.WarmUpPeriodSec
+//@   witness coldFactor = rule.WarmUpColdFactor
+//@   replay flow_warmup_new
+//@   ensures[is-warmup] typeis(r, "*core/flow.WarmUpTrafficShapingCalculator")
+//@   ensures[inv] wuInv(cast(dynptr(r), WarmUpTrafficShapingCalculator))
+//@   ensures[cold-start-slope] wuSlope(cast(dynptr(r), WarmUpTrafficShapingCalculator))
+//@   ensures[empty-bucket] cast(dynptr(r), WarmUpTrafficShapingCalculator).storedTokens == 0
+//@   modifies rule.WarmUpColdFactor
